@@ -105,6 +105,9 @@ package rapidcore
 //@   ensures [deliver] srvBuffered(s, invokeID) && !readFails(payload) && readerLen(payload) <= interop.MaxPayloadSize ==> ghost(httpWrites) == old(ghost(httpWrites)) + 1 && ghost(httpLastContent) == readerContent(payload) && ghost(httpLastLen) == readerLen(payload) && ghost(httpLastWriter) == ref(old(s.invokeCtx.ReplyStream))
 //@   ensures [deliver-marks-sent] srvBuffered(s, invokeID) && !readFails(payload) && readerLen(payload) <= interop.MaxPayloadSize && r0 == nil ==> s.invokeCtx.ReplySent && unchanged(s.invokeCtx)
 //@   ensures [sent-only-on-success] srvAccepts(s, invokeID) && !old(s.invokeCtx.Direct) && r0 != nil ==> !s.invokeCtx.ReplySent
+// C02 ("accepted ... only the first time"): a direct reply streams to the invoker as it is copied; whether the copy ends well or
+// not, bytes may have gone out, so it counts as the one reply
+//@   ensures [C02: a-direct-reply-is-the-only-reply-even-when-it-fails] srvAccepts(s, invokeID) && old(s.invokeCtx.ReplyStream) != nil && old(s.invokeCtx.Direct) ==> s.invokeCtx.ReplySent
 //@   ensures [keeps-reservation] old(s.invokeCtx) == nil || !old(s.invokeCtx.Direct) ==> unchanged(s.invokeCtx)
 
 // C10 / C07: the goroutines started by Invoke must not crash the process.
